@@ -271,8 +271,9 @@ def optional(ctx, g):
                         shift += 1
                     else:
                         mapping[k] = k - shift
-                a = _renumber(body_without_doc(P.fn), mapping)
-                b = _renumber(body_without_doc(S.fn), {k: k for k in range(0, len(S.syms) + 1)})
+                # compared in normal form: keyword / positional arguments, temporaries, p[a:b] slices are one spelling
+                a = _renumber(body_without_doc(ctx.repo.nfunc(CLS + '.' + P.fn.name)), mapping)
+                b = _renumber(body_without_doc(ctx.repo.nfunc(CLS + '.' + S.fn.name)), {k: k for k in range(0, len(S.syms) + 1)})
                 r.check(a == b, '%s (%s) == %s (%s) modulo the optional word(s) %s' % (
                     P.fn.name, ' '.join(P.syms), S.fn.name, ' '.join(S.syms), [P.syms[d - 1] for d in deleted]), S.fn,
                     construct=CLS + '.' + S.fn.name, key='optional-pair ' + P.fn.name,
